@@ -2,9 +2,10 @@
 """Compile harness/*.cpp with exactly the flags the Icinga objects were built with and link
 vdrive against ALL object files of the hook-enabled build (as test/CMakeLists.txt does)."""
 import os, subprocess, sys, glob, shlex, concurrent.futures as cf
-B = os.environ.get('VERIF_BUILD', '/verif/build')
-IB = B + '/icinga'
-H = '/verif/harness'
+HERE = os.path.dirname(os.path.dirname(os.path.abspath(__file__)))
+B = os.environ.get('VERIF_BUILD', HERE + '/build')
+IB = os.environ.get('VERIF_ICINGA_BUILD', B + '/icinga')
+H = HERE + '/harness'
 OUT = B + '/harness'
 os.makedirs(OUT, exist_ok=True)
 cmd = subprocess.check_output(['ninja', '-C', IB, '-t', 'commands', 'lib/icinga/CMakeFiles/icinga.dir/host.cpp.o'], text=True).strip().splitlines()[-1]
